@@ -173,6 +173,13 @@ def main(mod, tier):
         caps_seen.extend(r.get("caps_hit", []))
         for f in r.get("findings", []):
             by_key.setdefault(f["key"], []).append((case, f))
+        if os.environ.get("VERIF_FAILFAST") and any(match_known(prop, f["key"], known) is None for f in r.get("findings", [])):
+            # detection runs (mutation campaign, seeded changes): the first violation decides; never used by the
+            # registered commands, whose evidence must describe the complete enumeration
+            caps_seen.append("VERIF_FAILFAST: stopped at the first violation")
+            if hasattr(stream, "close"):
+                stream.close()
+            break
 
     known_hits, violations = [], []
     for key, lst in by_key.items():
